@@ -42,6 +42,7 @@ FILES = {
 }
 
 UUID = re.compile(r"'([0-9a-f]{32})'")
+DEDUP = re.compile(r"'([^']+)' = '\1'")          # the disambiguating filter of a de-duplicated CTE
 
 
 def canon_text(sql, dialect):
@@ -188,7 +189,7 @@ def main():
             joins.append([idx(j.this.alias_or_name), [idx(c.table) for c in on.find_all(exp.Column)] if on else []])
         wh = e.args.get("where")
         whq = [idx(c.table) for c in wh.find_all(exp.Column)] if wh else []
-        nuu = len(set(UUID.findall(e.sql(dialect="spark"))))
+        nuu = len(set(DEDUP.findall(e.sql(dialect="spark"))))
         return {"ctes": ctes, "from": idx(ftab) if ftab in names else "values", "joins": joins, "where": whq, "sel": sel,
                 "branch": cls(df.branch_id), "seq": cls(df.sequence_id), "last_op": int(df.last_op), "uuids": nuu,
                 "distinct_names": len(set(names)) == len(names)}
@@ -220,6 +221,21 @@ def main():
                 env[st["dst"]] = env[st["l"]].unionByName(env[st["r"]], allowMissingColumns=bool(st.get("allow")))
             elif op == "table":
                 env[st["dst"]] = s.table(st["view"])
+            elif op == "mktable":
+                s._conn.execute(f"CREATE OR REPLACE TABLE {st['name']} AS SELECT * FROM (VALUES (1, 10), (2, 20), (3, 30)) t(k, v)")
+            elif op == "newsession":
+                # other work constructs / configures "a session" with ANOTHER connection (the session is a process-wide singleton)
+                import duckdb
+                other = duckdb.connect()
+                other.execute(f"CREATE TABLE {st.get('name', 'tt')} AS SELECT * FROM (VALUES (7, 70)) t(k, v)")
+                env.setdefault("__conns__", []).append(other)
+                if st["how"] == "ctor":
+                    s2 = DuckDBSession(conn=other)
+                elif st["how"] == "builder":
+                    s2 = DuckDBSession.builder.config("sqlframe.conn", other).getOrCreate()
+                else:
+                    s2 = DuckDBSession()
+                ob["rows"] = s2 is s
             elif op == "api":
                 env[st["dst"]] = api(env[st["src"]], st["name"], st.get("args") or {})
             elif op == "csv":
@@ -250,6 +266,15 @@ def main():
                 with contextlib.redirect_stdout(buf):
                     env[st["src"]].show()
                 ob["rows"] = buf.getvalue()
+            elif op == "topandas":
+                pdf = env[st["src"]].toPandas()
+                ob["rows"] = sorted([[None if v != v else (v.item() if hasattr(v, "item") else v) for v in r] for r in pdf.values.tolist()],
+                                    key=lambda r: json.dumps(r, default=str))
+                ob["names"] = list(pdf.columns)
+            elif op == "toarrow":
+                tb = env[st["src"]].toArrow()
+                ob["rows"] = sorted([list(r.values()) for r in tb.to_pylist()], key=lambda r: json.dumps(r, default=str))
+                ob["names"] = list(tb.column_names)
             elif op == "schema":
                 ob["rows"] = env[st["src"]].schema.simpleString()
             elif op == "columns":
